@@ -429,19 +429,93 @@ def run_case(case_name, fn, cfg, opts):
                     # vacuity twin: the perturbed obligation must be refuted
                     twin_done = True
                     res.twins += 1
-                    tv, _ = solver.prove(
-                        p.conds, T.eq(lt_, T.add(rt_, T.ONE)))
-                    if tv == 'refuted':
+                    tv = _witness(solver, p, lt_, rt_)
+                    if tv is True:
                         res.twins_ok += 1
                     else:
                         res.errors.append(
-                            'vacuity twin of %s came back %s' % (label, tv))
+                            'vacuity twin of %s failed: %s' % (label, tv))
         if not diff_done and obls and opts.get('diffcheck', True):
             diff_done = True
             _diffcheck(res, fn, cfg, opts, solver, p, obls)
     res.solver = solver.stats.as_dict()
     res.seconds = time.time() - t0
     return res
+
+
+def _witness(solver, p, lt_, rt_):
+    """Reachability / vacuity witness for a proved obligation: the solver
+    exhibits a model of assumptions + path condition; at that point (function
+    symbols given their real meaning) every lemma the proof could use must be
+    true and the two sides must agree, so the twin 'lhs = rhs + 1' is violated
+    there.  A false lemma or an unsatisfiable path makes this fail."""
+    r, m = solver.model(p.conds + _spread(p.conds, 3))
+    if r != 'sat':
+        r, m = solver.model(p.conds)
+    if r != 'sat':
+        return 'path condition not satisfiable (%s)' % r
+    env = _fl(m)
+    for n in T.variables([lt_, rt_]):
+        if n not in env and n != 'pi':
+            env[n] = _default_value(n)
+    ufs = UFRegistry()
+    lemmas = solver.lemma_terms(p.conds + [lt_, rt_])
+    for n in T.variables(lemmas):
+        if n not in env and n != 'pi':
+            env[n] = _default_value(n)
+    for l in lemmas:
+        try:
+            ok = T.evalf(l, env, {'*': ufs})
+        except (T.Undefined, OverflowError, ZeroDivisionError,
+                NotImplementedError):
+            continue
+        if not ok and not _nearly(l, env, ufs):
+            return 'lemma false at the witness: %s' % T.show(l, 5)
+    try:
+        a = T.evalf(lt_, env, {'*': ufs})
+        b = T.evalf(rt_, env, {'*': ufs})
+    except (T.Undefined, OverflowError, ZeroDivisionError,
+            NotImplementedError):
+        return True
+    if not close(a, b, 1e-6):
+        return 'proved sides differ numerically at the witness: %r %r' % (
+            a, b)
+    return True
+
+
+def _nearly(l, env, ufs, tol=1e-9):
+    """Lemmas are exact over the reals; in floats a comparison may be off by
+    rounding.  Polarity-aware loose evaluation: every atom is given the
+    benefit of ``tol`` in the direction that makes the lemma true."""
+    def val(t):
+        return T.evalf(t, env, {'*': ufs})
+
+    def loose(t, pol):
+        op = t.op
+        if op == 'not':
+            return not loose(t.args[0], not pol)
+        if op == 'and':
+            return all(loose(a, pol) for a in t.args)
+        if op == 'or':
+            return any(loose(a, pol) for a in t.args)
+        if op in ('true', 'false'):
+            return op == 'true'
+        a, b = val(t.args[0]), val(t.args[1])
+        m = tol * (1 + abs(a) + abs(b))
+        if not pol:
+            m = -m
+        if op == '<':
+            return a < b + m
+        if op == '<=':
+            return a <= b + m
+        if op == '==':
+            return abs(a - b) <= m if pol else (a == b and False)
+        raise TypeError(op)
+    try:
+        return loose(l, True)
+    except (T.Undefined, OverflowError, ZeroDivisionError,
+            NotImplementedError, KeyError):
+        return True
 
 
 def _settle(res, fn, cfg, opts, solver, p, label, verdict, env, shown,
